@@ -300,6 +300,27 @@ class SRLock:
     self.release()
 
 
+class SLock(SRLock):
+  """threading.Lock (not re-entrant)"""
+
+  def acquire(self, blocking=True, timeout=-1):
+    me = self._me()
+    _pt("acquire", self, enabled=lambda: self.owner is None)
+    self.owner, self.count = me, 1
+    _res(1)
+    return True
+
+  def release(self):
+    _pt("release", self)
+    if self.owner is None:
+      _res("RuntimeError")
+      raise RuntimeError("release unlocked lock")
+    self.owner, self.count = None, 0
+    _res(0)
+
+  __enter__ = acquire
+
+
 class STime:
   """the `time` module: sleep() in virtual time"""
 
@@ -346,6 +367,10 @@ def installed(sched):
   try:
     ma.Thread, ma.Queue, ma.PriorityQueue, ma.ThreadEvent = SThread, SQueue, SPriorityQueue, SEvent
     ma.deque, ma.time, ma.uuid = SDeque, STime(), SUuid()
+    for lockname, shim in (("Lock", SLock), ("RLock", SRLock)):
+      if hasattr(ma, lockname):                 # present only if the code under test imports it
+        old[lockname] = getattr(ma, lockname)
+        setattr(ma, lockname, shim)
 
     class SourceThreadEvent(SEvent):
       pass
